@@ -9,7 +9,7 @@ from vt import canon, core, explore, vloop
 META = dict(
     level="model_checking",
     engine="E2",
-    technique="explicit-state BFS over (stream offset, canonical parser state) of the real HTTP/EVENT feed loop: every segmentation of each enumerated message sequence is a path in the explored graph",
+    technique="explicit-state BFS over (stream offset, canonical parser state) of the real HTTP/EVENT feed loop: every segmentation of each enumerated message sequence is a path in the explored graph; the same for the ciphertext stream and every accessory frame-boundary choice in front of the real SecureHomeKitProtocol",
     text="for each enumerated well-formed message sequence the complete segmentation graph of InsecureHomeKitProtocol.data_received "
     "is built (edge = feed the next k bytes, for every k); every path must deliver exactly the sent messages, in order, "
     "prefix-monotonically, without raising; long streams additionally get every single (thorough: double) cut",
@@ -246,7 +246,24 @@ def case_cuts(p):
     return out
 
 
-CASES = {"graph": case_graph, "cuts": case_cuts}
+def case_secure(p):
+    """The same parser behind the encrypted transport (where accessories' messages actually arrive): the message sequence is framed by the
+    reference framer with the given frame sizes and every segmentation of the *ciphertext* (complete graph for small streams, else every
+    single cut) plus every frame-boundary choice is explored on the real SecureHomeKitProtocol; c05's machinery, this property's oracle."""
+    from vt.props import c05
+
+    q = {"msgs": p["seq"], "sizes": p.get("sizes", [1024])}
+    if p["mode"] == "graph":
+        v = c05.case_graph(q)
+    elif p["mode"] == "cuts":
+        v = c05.case_cuts(q)
+    else:
+        v = c05.case_framesplits(q)
+    p["_stats"] = q.get("_stats", (0, 0, 0))
+    return [("secure:" + sig, det) for sig, det in v]
+
+
+CASES = {"graph": case_graph, "cuts": case_cuts, "secure": case_secure}
 
 
 def _work(item, seed, tier):
@@ -259,9 +276,12 @@ def _work(item, seed, tier):
     acc.states += nodes
     acc.transitions += trans
     acc.extra["stream_bytes"] += n
-    if name == "graph" and nodes != n + 1:
+    if name == "secure":
+        acc.extra["stream_bytes"] -= n
+        acc.extra["secure_stream_bytes"] += n
+    elif name == "graph" and nodes != n + 1:
         acc.extra["graphs_with_extra_nodes"] += 1
-    acc.case(key=(name, core.jsonable(p)), outcome=f"{name}:{'ok' if not v else v[0][0]}", sample={"case": name, "stream": _wire(p["seq"])[0][:200]}, symbols=(name,) + tuple(f"{m['kind'][:4]}:{m['framing']}" for m in p["seq"]))
+    acc.case(key=(name, core.jsonable(p)), outcome=f"{name}:{'ok' if not v else v[0][0]}", sample={"case": name, "stream": _wire(p["seq"])[0][:200]}, symbols=(name,) + ((f"secure:{p['mode']}",) if name == "secure" else ()) + tuple(f"{m['kind'][:4]}:{m['framing']}" for m in p["seq"]))
     acc.traces += 1
     for sig, detail in v:
         acc.violation(sig, name, p, detail)
@@ -275,12 +295,26 @@ def run(ctx):
     bigc = dict(kind="HTTP/1.1", code=200, reason="OK", headers=[], framing="chunked", body=b"0\r\n\r\n" * 120, chunks=[255, 256, 1, 17])
     ev = dict(kind="EVENT/1.0", code=200, reason="OK", headers=[("Content-Type", "application/hap+json")], framing="cl", body=b'{"characteristics":[]}')
     work.append(("cuts", {"seq": [big, ev, bigc]}))
+    small = dict(kind="HTTP/1.1", code=200, reason="OK", headers=[("Content-Type", "application/hap+json")], framing="cl", body=b'{"characteristics":[{"aid":1,"iid":9,"value":true}]}')
+    smallc = dict(kind="HTTP/1.1", code=200, reason="OK", headers=[], framing="chunked", body=b"ab\r\n0\r\n\r\ncd", chunks=[2, 3])
+    nobody = dict(kind="HTTP/1.1", code=204, reason="No Content", headers=[], framing="none")
+    work.append(("secure", {"mode": "graph", "seq": [small, ev], "sizes": [40]}))
+    work.append(("secure", {"mode": "graph", "seq": [nobody, smallc, nobody], "sizes": [9]}))
+    work.append(("secure", {"mode": "cuts", "seq": [big, ev, bigc], "sizes": [1024]}))
+    work.append(("secure", {"mode": "cuts", "seq": [dict(big, body=big["body"] * 3)], "sizes": [1023, 1, 1024]}))
+    work.append(("secure", {"mode": "framesplits", "seq": [smallc, ev, nobody]}))
+    work.append(("secure", {"mode": "framesplits", "seq": [dict(ev, framing="chunked", chunks=[7, 1, 100]), small]}))
     if ctx.tier == "thorough":
+        work.append(("secure", {"mode": "graph", "seq": [ev, smallc, small], "sizes": [16, 1, 64]}))
+        work.append(("secure", {"mode": "graph", "seq": [small, small], "sizes": [1024]}))
+        work.append(("secure", {"mode": "framesplits", "seq": [bigc, ev]}))
         work.append(("cuts", {"seq": [ev, bigc, ev], "double": True, "step": 1}))
         work.append(("cuts", {"seq": [big, bigc], "double": True, "step": 5}))
     ctx.pmap(_work, work)
     ctx.exhaustive = True
     ctx.bounds.update(sequences=len(seqs), max_stream=max(len(_wire(s)[0]) for s in seqs), segmentations="all (complete graph per sequence)")
     ctx.note(f"graphs whose node count exceeds n+1 (state depends on cuts, not a violation by itself): {ctx.acc.extra['graphs_with_extra_nodes']}")
+    for m in ("graph", "cuts", "framesplits"):
+        ctx.require(ctx.acc.symbols[f"secure:{m}"] > 0, f"no secure-transport {m} run")
     for s in ("HTTP:cl", "HTTP:chunked", "HTTP:none", "EVEN:cl", "EVEN:chunked"):
         ctx.require(ctx.acc.symbols[s] > 0, f"no sequence with {s}")
